@@ -7,7 +7,7 @@ CHECKS = {
     "C01": dict(category="exploration", technique="runtime monitoring: acceptance monitor replaying every sample against the loaded emitted module (pydantic parse_obj + independent structural acceptor)",
                 text="Every generated execution (sample list x options) is replayed against the module obtained by executing the emitted text.", note=TB, ref="4 C01"),
     "C02": dict(category="exploration", technique="runtime monitoring: tightness monitor - sample values routed to every position of the loaded class graph must justify each Optional / union member / Literal / Any",
-                text="Per execution, every position of the emitted class graph is checked against the multiset of sample values routed to it.", note=TB, ref="4 C02"),
+                text="Per execution, every position of the emitted class graph is checked against the multiset of sample values routed to it; 60-300-deep lists are judged on the IR (no module can spell them).", note=TB, ref="4 C02"),
     "C03": dict(category="exploration", technique="runtime monitoring: load monitor (compile+exec of emitted text, annotations evaluated in scope) + ast census over key-style workloads",
                 text="Every emitted module is executed with only its own imports and its annotations evaluated in scope; names are censused from the ast.", note=TB, ref="4 C03"),
     "C04": dict(category="translation_validation", technique="runtime monitoring: per emitted program, class table from framework introspection compared with an independent rendering of the registry IR",
@@ -21,19 +21,19 @@ CHECKS = {
     "C08": dict(category="exploration", technique="runtime monitoring: normal-form predicate on the IR at the generate()/merge_models() boundary, second-pass no-op monitor, ast scan of emitted annotation source",
                 text="Exhaustive over multisets of <=2 (thorough: <=3) values from a 40-value universe in one field, plus random inputs.", note=TB, ref="4 C08"),
     "C09": dict(category="exploration", technique="runtime monitoring: first-match oracle on generate() results, resolve-soundness oracle over the accepted-string corpus (all subsets), disabled-type monitor, parse/render/parse monitor",
-                text="Grammar-generated strings x ordered sub-registries (quick 200, thorough all 1957); resolve() exhaustively over subsets of each registry.", note=TB, ref="4 C09"),
+                text="Grammar-generated strings x ordered sub-registries (quick 200, thorough all 1957); resolve() exhaustively over subsets of each registry; --disable-str-serializable-types on a Cli object run / configured twice.", note=TB, ref="4 C09"),
     "C10": dict(category="exploration", technique="runtime monitoring: evaluated annotations of the loaded emitted module compared with the documented literal rule and the observed plain strings",
                 text="Sets of 0-17 hostile strings around every boundary x max_literals 0..17 x frameworks x positions.", note=TB, ref="4 C10"),
     "C11": dict(category="exploration", technique="runtime monitoring: framework field tables (alias / metadata) of the loaded module checked for injectivity and exact recovery of every key; class-name census",
                 text="Key-style and random hostile keys in the documented domain x unicode option x 4 frameworks; out-of-domain finding probes.", note=TB, ref="4 C11"),
     "C12": dict(category="exploration", technique="runtime monitoring: differential comparison of the loaded class tables of the flat and nested renderings + ast placement census",
-                text="Tree-shaped inputs (precondition computed from the registry) x frameworks; flat completeness on arbitrary graphs.", note=TB, ref="4 C12"),
+                text="Tree-shaped inputs (precondition computed from the registry) x frameworks; flat completeness on arbitrary graphs; object chains up to 96 levels; every second case renders each layout from its own inference run.", note=TB, ref="4 C12"),
     "C13": dict(category="exploration", technique="runtime monitoring: independent dict-vs-model decision per object occurrence compared with the annotations of the loaded module (library path and real CLI subprocesses)",
-                text="Inputs x field-name lists x regex lists incl. anchor-sensitive alternations through the CLI.", note=TB, ref="4 C13"),
+                text="Inputs x field-name lists x regex lists incl. anchor-sensitive alternations through the CLI, near-miss field names, and a Cli object re-configured from wider dict-keys options.", note=TB, ref="4 C13"),
     "C14": dict(category="exploration", technique="runtime monitoring: call histories (incl. sys.monitoring failpoints) in one process, every output compared with the same call run alone in a pristine forked process; state digest steers the workload",
-                text="Histories of 2-4 operations incl. injected mid-render failures, re-renders, direct generator calls and implicit-registry generations.", note=TB, ref="4 C14"),
+                text="Histories of 2-6 operations incl. injected mid-render failures, re-renders, direct generator calls (also generate() twice), types_style overrides, one MetadataGenerator kept for several documents, implicit-registry generations, and one Cli object configured / run several times.", note=TB, ref="4 C14"),
     "C15": dict(category="exploration", technique="runtime monitoring: real threads under 1us switch interval with seeded sys.monitoring LINE yield injection; per-thread output vs solo output; overlap of render windows observed",
-                text="Single calls from a fresh worker thread and schedules of 2-8 concurrent pipelines; overlapping windows must actually be observed.", note=TB + " Schedules are sampled, not enumerated.", ref="4 C15"),
+                text="Single calls from a fresh worker thread and schedules of 2-8 concurrent pipelines (library pipelines; Cli objects writing -o files into one shared directory); overlapping windows must actually be observed.", note=TB + " Schedules are sampled, not enumerated.", ref="4 C15"),
     "C16": dict(category="exploration", technique="runtime monitoring: real CLI subprocesses; stdout after the header / -o file compared with the library text obtained by an independent reference front end",
                 text="File splittings, lookups, -m/-l, globs, json/yaml/ini x all documented options.", note=TB, ref="4 C16"),
     "C17": dict(category="fault_enumeration", technique="runtime monitoring: fault injection into real CLI subprocesses (fault kinds x positions x target states, sys.monitoring failpoints via sitecustomize) observed by exit status, stdout, target bytes, audit-hook trace and strace",
@@ -41,7 +41,7 @@ CHECKS = {
     "C18": dict(category="exploration", technique="runtime monitoring: instance monitor - every routed sample object is passed to the emitted attrs/dataclass class; attributes compared with the path-wise parse of the original / identity",
                 text="Pseudo-typed fields at Optional/List/Dict paths up to depth 3, empties and nulls x attrs/dataclasses x converters on/off.", note=TB, ref="4 C18"),
     "C19": dict(category="exploration", technique="runtime monitoring: ast of real CLI stdout under hostile argv (quote runs, backslashes, newlines, non-ASCII in preamble, file names, patterns); nonce-tagged preamble located between imports and classes",
-                text="Hostile argv / preamble texts x frameworks x layouts through real subprocesses.", note=TB, ref="4 C19"),
+                text="Hostile argv / preamble texts x frameworks x layouts through real subprocesses; 1 in 5 on a Cli object that ran before with another preamble.", note=TB, ref="4 C19"),
 }
 NOT_YET = {}
 props = [json.loads(l) for l in open(os.path.join(HERE, "properties.jsonl"))]
